@@ -159,6 +159,9 @@ def _run_exec(run_one, cfg, prefix, expect):
 
         root = logging.getLogger()
         old_level, old_disable = root.level, logging.root.manager.disable
+        old_handlers = list(root.handlers)
+        for oh in old_handlers:
+            root.removeHandler(oh)  # e.g. the stderr handler that logging.basicConfig() installs behind the library's back
         h = logging.NullHandler()
         root.addHandler(h)
         root.setLevel(logging.DEBUG)
@@ -169,6 +172,8 @@ def _run_exec(run_one, cfg, prefix, expect):
             logging.disable(old_disable)
             root.setLevel(old_level)
             root.removeHandler(h)
+            for oh in old_handlers:
+                root.addHandler(oh)
         return ctl, obs
     obs = run_one(ctl, cfg)
     return ctl, obs
@@ -372,11 +377,25 @@ def explore(
             fid = pool.map(_worker_fidelity, audit_items[:150], chunksize=1) if fidelity and not errors else []
 
     mismatches = [r for r in replayed if r[2] != r[3] or not r[4]]
+    # explain mismatches: alone in a fresh interpreter (twice) - stable there but different inside a long-lived
+    # worker means the library carries state between calls
+    order_dependent = []
+    unexplained = []
+    for r in mismatches[:6]:
+        fr = [_fresh_run(run_ref, configs[r[0]], r[1], init_ref) for _ in range(2)]
+        if fr[0] is not None and fr[1] is not None and fr[0]["digest"] == fr[1]["digest"] and \
+                (fr[0]["digest"] != r[2] or fr[0]["digest"] != r[3]):
+            order_dependent.append({"cfg_index": r[0], "choices": r[1], "alone": fr[0], "in_worker": [r[2], r[3]]})
+        else:
+            unexplained.append(r)
+    if order_dependent and not unexplained:
+        mismatches = []
     return {
         "stats": total,
         "errors": errors,
         "replayed": len(replayed),
         "replay_mismatches": len(mismatches),
+        "order_dependent": order_dependent,
         "mismatch_examples": [
             {"cfg_index": r[0], "choices": r[1], "first": r[2], "second": r[3]} for r in mismatches[:3]
         ],
@@ -389,6 +408,18 @@ def explore(
         "configs": len(configs),
         "bound": bound,
     }
+
+
+def _fresh_run(run_ref, cfg, choices, init_ref):
+    import subprocess
+    import sys
+
+    try:
+        p = subprocess.run([sys.executable, "-m", "vf.fresh", run_ref, json.dumps(cfg), json.dumps(list(choices)), init_ref or ""],
+                           capture_output=True, text=True, timeout=300, cwd=os.path.dirname(os.path.dirname(os.path.abspath(__file__))))
+        return json.loads(p.stdout.strip().splitlines()[-1])
+    except Exception:
+        return None
 
 
 def replay_one(run_ref: str, cfg: Any, choices: Sequence[int], init_ref: Optional[str] = None):
